@@ -15,7 +15,12 @@ REPR2VID.update({repr("{T}/" + d): k for k, d in DIRV.items()})
 # the property oracle takes the names from inspect.signature in the runner)
 SIG_STR = ["self", "model_str", "file_name", "debug", "pre_ref_resolution_callback", "encoding"]
 SIG_FILE = ["self", "file_name", "encoding", "debug"]
-BENIGN = {"debug": None, "encoding": "utf-8", "pre_ref_resolution_callback": None, "file_name": None}
+SIG_REPO = ["self", "global_model_repo", "encoding"]
+BENIGN = {"debug": None, "encoding": "utf-8", "pre_ref_resolution_callback": None, "file_name": None, "global_model_repo": None}
+
+
+def sig_for(entry):
+    return SIG_FILE if entry == "file" else (SIG_REPO if entry == "repo" else SIG_STR)
 USER_NAMES = ["p1", "p2", "mode", "source", "name", "kwargs", "k"]
 UNDECLARED = ["q", "undeclared", "Project_root", "p", "project_roo", "description"]
 PROVS = ["none", "importuri", "importuri_fqn", "importuri_sp", "importuri_fqn_sp", "rrel", "globalrepo", "globalrepo_fqn"]
@@ -27,6 +32,21 @@ def family(prov):
 
 def is_sp(prov):
     return prov.endswith("_sp")
+
+
+EXT_LANG = {".m": 0, ".n1": 1, ".n2": 2}
+
+
+def lang_of(case, path):
+    """The registered language whose pattern matches the file name (None: no language registered for it).
+    Languages are registered only in multi-language scenarios: language 0 = the entry metamodel (*.m), k = *.n<k>."""
+    n = case.get("nlangs") or 0
+    k = EXT_LANG.get(os.path.splitext(path)[1])
+    return k if (k is not None and k < n) else None
+
+
+def stem(path):
+    return os.path.splitext(os.path.basename(path))[0]
 
 
 # ---------------------------------------------------------------- resolution of imports (harness side)
@@ -73,27 +93,37 @@ def imports_of(case, dirname, uris):
     return recs
 
 
-def text_of(case, base, uris, prim, dirname):
+def text_of(case, base, uris, prim, dirname, own_lang=0):
+    """own_lang: the registered language of the model being written (0 for models loaded through the entry
+    metamodel).  References cross files only inside one metamodel: in a multi-language scenario a file refers to
+    items of an imported file only when both belong to the same registered language (classes of different
+    metamodels never match); files without registered language neither refer nor are referred to."""
     if prim:
         return "#" + base
     fam = family(case["prov"])
+    multi = bool(case.get("nlangs"))
+
+    def can_ref(path):
+        return (not multi) or (own_lang is not None and lang_of(case, path) == own_lang)
     lines = []
     refs = []
     if case["prov"] == "rrel":
         refs.append(base)      # the RREL loader hangs on the references: a model without any never loads its imports
+    if case.get("builtin") and (own_lang == 0 or not multi):
+        refs.append("z")       # the item of the builtin model (the result of operation 0)
     if fam == "importuri":
         for u in uris:
             lines.append('import "%s"' % u)
         for rec in imports_of(case, dirname, uris):
             for i in rec["plain"] or []:
                 f = case["files"][i]
-                if not f["prim"]:
+                if not f["prim"] and can_ref(f["path"]):
                     refs.append(f["base"])
     elif fam == "globalrepo":
         for pat in case["patterns"]:
             b = os.path.basename(pat)
-            if not any(ch in b for ch in "*?[") and b.endswith(".m") and any(f["base"] == b[:-2] and not f["prim"] for f in case["files"]):
-                refs.append(b[:-2])
+            if not any(ch in b for ch in "*?[") and can_ref(b) and any(os.path.basename(f["path"]) == b and not f["prim"] for f in case["files"]):
+                refs.append(stem(b))
     lines.append("item " + base)
     seen = []
     for x in refs:
@@ -119,7 +149,7 @@ def gen_kw(r, entry, declared, fam, malformed):
         elif cls == "undecl":
             k = r.choice(UNDECLARED + USER_NAMES)
         elif cls == "reserved":
-            k = r.choice(SIG_STR)
+            k = r.choice(SIG_REPO if entry == "repo" else SIG_STR)
         else:
             k = "project_root"
         if k in used:
@@ -139,6 +169,10 @@ def gen_case(r, idx, malformed=False):
     prov = r.choice(PROVS) if not r.chance(0.1) else "none"
     fam = family(prov)
     case = {"prov": prov, "grepo": r.chance(0.45), "dirs": ["root", "cwd", "lib"], "search_path": [], "patterns": []}
+    # several registered languages: imports of *.n<k> files are loaded by another metamodel with its own declarations
+    multi = fam != "none" and prov != "rrel" and r.chance(0.6 if fam == "globalrepo" else 0.4)
+    case["nlangs"] = r.choice([2, 2, 3]) if multi else 0
+    case["builtin"] = fam == "importuri" and prov != "rrel" and r.chance(0.25)
     # declarations
     adds = []
     for _ in range(r.weighted([(0, 1), (1, 3), (2, 4), (3, 3), (4, 1)])):
@@ -146,37 +180,51 @@ def gen_case(r, idx, malformed=False):
             adds.append(r.choice(SIG_STR))
         else:
             adds.append(r.choice(USER_NAMES))
+    if multi and not any(a in USER_NAMES for a in adds):
+        adds.append(r.choice(USER_NAMES))        # the outer language declares something of its own
     case["adds"] = adds
-    declared = ["project_root"] + [a for a in adds if a not in SIG_STR and a not in SIG_FILE]
+    case["lang_adds"] = [r.sample(USER_NAMES, r.weighted([(0, 5), (1, 3), (2, 1)])) for _ in range(max(0, case["nlangs"] - 1))]
+    declared = list(dict.fromkeys(["project_root"] + [a for a in adds if a not in SIG_STR and a not in SIG_FILE]))
     # files
     bases = ["a", "b", "c", "d", "e"]
+    ext = {b: ".m" for b in bases + ["p"]}
+    if multi:
+        for b in bases[1:]:
+            ext[b] = r.weighted([(".m", 4), (".n1", 4), (".n2", 2 if case["nlangs"] == 3 else 0), (".u", 1)])
     files = []
     nroot = r.range(2, 5) if fam != "none" else r.range(1, 3)
+
+    def mk(d, b):
+        return {"path": "%s/%s%s" % (d, b, ext[b]), "base": b, "uris": [], "prim": False}
     for b in bases[:nroot]:
-        files.append({"path": "root/%s.m" % b, "base": b, "uris": [], "prim": False})
+        files.append(mk("root", b))
     if fam == "globalrepo":
-        for b in r.sample(bases[:nroot], r.range(0, nroot)):
-            files.append({"path": "cwd/%s.m" % b, "base": b, "uris": [], "prim": False})
+        for b in (bases[:nroot] if r.chance(0.5) else r.sample(bases[:nroot], r.range(0, nroot))):
+            files.append(mk("cwd", b))
     if is_sp(prov):
         case["search_path"] = ["lib"]
         for b in r.sample(bases, r.range(1, 3)):
-            files.append({"path": "lib/%s.m" % b, "base": b, "uris": [], "prim": False})
+            files.append(mk("lib", b))
     if fam == "none" and r.chance(0.3):
         files.append({"path": "root/p.m", "base": "p", "uris": [], "prim": True})
-    elif fam != "none" and prov != "rrel" and r.chance(0.05):
+    elif fam != "none" and prov != "rrel" and r.chance(0.05) and len(files) > 1:
         files[-1]["prim"] = True
     case["files"] = files
+    wild = ["*.m", "[ab].m", "?.m"] + (["*.n1", "*.*", "[abc].*"] if multi else [])
     if fam == "globalrepo":
         pats = []
         for _ in range(r.range(1, 3)):
             kind = r.weighted([("rel", 6), ("abs", 3), ("wild", 2), ("missing", 1 if malformed else 0)])
             b = r.choice(bases[:nroot])
+            foreign = [x for x in bases[:nroot] if ext[x] != ".m"]
+            if foreign and r.chance(0.5):
+                b = r.choice(foreign)
             if kind == "rel":
-                pats.append(b + ".m")
+                pats.append(b + ext[b])
             elif kind == "abs":
-                pats.append("{T}/root/%s.m" % b)
+                pats.append("{T}/root/%s%s" % (b, ext[b]))
             elif kind == "wild":
-                pats.append(r.choice(["*.m", "[ab].m", "?.m"]))
+                pats.append(r.choice(wild))
             else:
                 pats.append("zz.m")
         case["patterns"] = pats
@@ -188,9 +236,10 @@ def gen_case(r, idx, malformed=False):
         for _ in range(r.weighted([(0, 2), (1, 4), (2, 4), (3, 2)])):
             kind = r.weighted([("name", 12), ("wild", 0 if is_sp(prov) else 2), ("missing", 1 if malformed else 0)])
             if kind == "name":
-                us.append(r.choice([f["base"] for f in files]) + ".m")
+                foreign = [f for f in files if not f["path"].endswith(".m")]
+                us.append(os.path.basename(r.choice(foreign if (foreign and r.chance(0.5)) else files)["path"]))
             elif kind == "wild":
-                us.append(r.choice(["*.m", "[ab].m", "?.m"]))
+                us.append(r.choice(wild))
             else:
                 us.append("zz.m")
         return us
@@ -198,36 +247,48 @@ def gen_case(r, idx, malformed=False):
         if not f["prim"]:
             f["uris"] = rand_uris(os.path.dirname(f["path"]))
     for f in files:
-        f["text"] = text_of(case, f["base"], f["uris"], f["prim"], os.path.dirname(f["path"]))
-    # operations
+        f["text"] = text_of(case, f["base"], f["uris"], f["prim"], os.path.dirname(f["path"]), lang_of(case, f["path"]) if multi else 0)
+    # operations (entry files are always *.m: they are loaded by the entry metamodel itself)
+    entry_files = [f for f in files if f["path"].endswith(".m")]
     ops = []
     nfresh = 0
-    for _ in range(r.range(2, 5) if case["grepo"] else r.range(1, 3)):
-        entry = r.weighted([("file", 6), ("strfn", 3), ("str", 3)])
+    for k in range(r.range(2, 5) if (case["grepo"] or case["builtin"]) else r.range(1, 3)):
+        entry = r.weighted([("file", 6), ("strfn", 3), ("str", 3), ("repo", (6 if multi else 2) if (fam == "globalrepo" and not case["grepo"]) else 0)])
+        if k == 0 and case["builtin"]:
+            entry = "str"
         op = {"entry": entry, "is_str": True, "fn_keyword": r.chance(0.5)}
-        if entry == "file":
+        if entry == "repo":
+            pass
+        elif entry == "file":
             if r.chance(0.08 if malformed else 0.02):
                 op["path"] = "root/n%d.m" % nfresh
                 nfresh += 1
             else:
-                op["path"] = r.choice(files)["path"]
+                op["path"] = r.choice(entry_files)["path"]
         else:
             if entry == "strfn":
                 if r.chance(0.5):
-                    op["path"] = r.choice(files)["path"]
+                    op["path"] = r.choice(entry_files)["path"]
                 else:
                     op["path"] = "root/n%d.m" % nfresh
                     nfresh += 1
             dirname = os.path.dirname(op["path"]) if entry == "strfn" else None
             prim = fam == "none" and r.chance(0.15)
             uris = rand_uris(dirname) if (dirname is not None or r.chance(0.15)) else []
+            if k == 0 and case["builtin"]:
+                uris = []
             op["content"] = {"uris": uris, "prim": prim}
-            base = os.path.basename(op["path"])[:-2] if entry == "strfn" else "z"   # same item name as the file it stands for
+            base = stem(op["path"]) if entry == "strfn" else "z"   # same item name as the file it stands for
             op["text"] = text_of(case, base, uris, prim, dirname)
-            if r.chance(0.12 if malformed else 0.02):
+            if r.chance(0.12 if malformed else 0.02) and not (k == 0 and case["builtin"]):
                 op["is_str"] = False
                 op["notstr"] = {"v": r.choice([5, None, 1.5])}
-        op["kwv"] = gen_kw(r, entry, declared, fam, malformed)
+        if entry == "repo":
+            op["kwv"] = gen_kw(r, entry, declared + UNDECLARED[:2], fam, malformed)    # nothing is validated here
+        elif k == 0 and case["builtin"]:
+            op["kwv"] = [[n, r.below(len(VALS))] for n in r.sample(declared, min(len(declared), r.range(0, 2)))]
+        else:
+            op["kwv"] = gen_kw(r, entry, declared, fam, malformed)
         ops.append(op)
     case["ops"] = ops
     finalize(case)
@@ -240,7 +301,7 @@ def finalize(case):
     for op in case["ops"]:
         if "path" in op and op["path"] not in ids:
             ids[op["path"]] = len(ids)
-        sig = SIG_FILE if op["entry"] == "file" else SIG_STR
+        sig = sig_for(op["entry"])
         kw = []
         for k, v in op["kwv"]:
             if k in sig and k in BENIGN:
@@ -263,8 +324,9 @@ def c_import(rec):
         c_nats(rec["plain"]), core.coq_bool(rec["rel"]), core.coq_list(["(%d%%N, %s)" % (v, c_nats(x)) for v, x in rec["rooted"]]))
 
 
-def c_file(case, dirname, uris, prim):
-    return "{| f_imports := %s; f_prim := %s |}" % (core.coq_list([c_import(x) for x in imports_of(case, dirname, uris)]), core.coq_bool(prim))
+def c_file(case, dirname, uris, prim, lang=None):
+    return "{| f_imports := %s; f_prim := %s; f_lang := %s |}" % (
+        core.coq_list([c_import(x) for x in imports_of(case, dirname, uris)]), core.coq_bool(prim), "None" if lang is None else "(Some %d%%nat)" % lang)
 
 
 def c_kw(kwv):
@@ -273,13 +335,16 @@ def c_kw(kwv):
 
 def coq_case(case):
     fam = family(case["prov"])
-    w = core.coq_list([c_file(case, os.path.dirname(f["path"]), f["uris"], f["prim"]) for f in case["files"]])
+    w = core.coq_list([c_file(case, os.path.dirname(f["path"]), f["uris"], f["prim"], lang_of(case, f["path"])) for f in case["files"]])
     c = "{| c_prov := %s; c_grepo := %s |}" % ({"none": "PNone", "importuri": "PImportURI", "globalrepo": "PGlobalRepo"}[fam], core.coq_bool(case["grepo"]))
     ops = []
     for op in case["ops"]:
-        if op["entry"] == "file":
+        if op["entry"] == "repo":
+            e = "ERepo"
+            content = c_file(case, None, [], False)
+        elif op["entry"] == "file":
             e = "EFile %d" % case["ids"][op["path"]]
-            content = "{| f_imports := []; f_prim := false |}"
+            content = "{| f_imports := []; f_prim := false; f_lang := None |}"
         else:
             e = "EStr" if op["entry"] == "str" else "EStrFn %d" % case["ids"][op["path"]]
             dirname = os.path.dirname(op["path"]) if op["entry"] == "strfn" else None
@@ -300,9 +365,9 @@ def r_params(p):
 
 def r_desc(case, d):
     if d["prim"]:
-        return "-/%s/Pnone" % d["op"]
+        return "-/%s/Pnone@0" % d["op"]
     f = "-" if d["file"] is None else str(case["ids"].get(d["file"], "?" + d["file"]))
-    return "%s/%s/%s" % (f, d["op"], r_params(d["params"]))
+    return "%s/%s/%s@%s" % (f, d["op"], r_params(d["params"]), d.get("mm"))
 
 
 def r_outcome(case, o):
@@ -315,7 +380,12 @@ def r_outcome(case, o):
         return "S"
     if k == "err":
         cls = o["exc"].split(":")[0]
+        if cls == "AttributeError" and "'NoneType' object has no attribute 'internal_model_from_file'" in o["exc"]:
+            return "E:nomm"
         return "E:" + {"FileNotFoundError": "missing", "OSError": "missing", "AttributeError": "prim", "TypeError": "nofile"}.get(cls, cls)
+    if k == "repo":
+        return "G new[%s] repo[%s]" % (" ".join(r_desc(case, d) for d in o["new"]),
+                                       " ".join("%s:%s" % (case["ids"].get(key, "?" + key), r_desc(case, d)) for key, d in o["repo"]))
     s = "L %s new[%s]" % (r_desc(case, o["result"]), " ".join(r_desc(case, d) for d in o["new"]))
     if o["repo"] is None:
         return s + " repo-"
@@ -341,8 +411,8 @@ def oracle(case, out):
             bad.append("model_param_defs.add(%r) raised %s: %s" % (name, a["exc"], a["msg"]))
     born = {}     # (op, file) -> params at creation, for models created by earlier loads
     for k, (op, o) in enumerate(zip(case["ops"], out["ops"])):
-        sig = sig_f if op["entry"] == "file" else sig_s
-        supplied = sig[:2] if op["entry"] in ("file", "str") else sig[:3]
+        sig = sig_f if op["entry"] == "file" else (out["sig_repo"] if op["entry"] == "repo" else sig_s)
+        supplied = sig[:1] if op["entry"] == "repo" else (sig[:2] if op["entry"] in ("file", "str") else sig[:3])
         given = [(key, spec) for key, spec in op["kw"]]
         names = [key for key, _ in given]
         if any(n in supplied for n in names):
@@ -350,6 +420,21 @@ def oracle(case, out):
         model_kw = [(key, spec) for key, spec in given if key not in sig]
         unknown = [key for key, _ in model_kw if key not in declared]
         where = "op %d (%s %s)" % (k, op["entry"], names)
+        if op["entry"] == "repo":
+            # load_models_in_model_repo: documented as unchecked; whatever it is given reaches every model it loads
+            if o["kind"] in ("rejected", "typeerror"):
+                bad.append(where + ": load_models_in_model_repo refused its keyword arguments: %s" % o.get("exc"))
+            if o["kind"] == "repo":
+                want = [[key, repr_of(spec)] for key, spec in model_kw]
+                for d in o["new"]:
+                    p = d["params"]
+                    if not d["prim"] and (p is None or p["items"] != want or not p["is_mp"]):
+                        bad.append(where + ": model of %s loaded by load_models_in_model_repo exposes %s, given %s" % (d["file"], None if p is None else p["items"], want))
+                    born[(k, d["file"])] = p
+                for fname, p in o["seen"]:
+                    if p is None or p["items"] != want:
+                        bad.append(where + ": at object-processor time the model of %s exposed %s, given %s" % (fname, None if p is None else p["items"], want))
+            continue
         for key in names:
             if key in declared and key in sig:
                 bad.append(where + ": declared parameter %r is bound to an explicit argument of the entry point and cannot reach the model" % key)
@@ -385,7 +470,7 @@ def oracle(case, out):
             bad.append(where + ": %d models created but object processors saw %d" % (len(o["new"]), len(o["seen"])))
         if o["shared"] is False:
             bad.append(where + ": models of one load carry different ModelParams objects")
-        olds = [o["result"]] + [d for _, d in (o["repo"] or [])]
+        olds = [o["result"]] + [d for _, d in (o["repo"] or [])] + ([o["builtin"]] if o.get("builtin") else [])
         for d in olds:
             if d["prim"] or d["op"] == k:
                 continue
@@ -459,11 +544,11 @@ def fill_texts(case):
     """Corpus cases give the structure; the texts are derived exactly as for generated cases."""
     for f in case["files"]:
         if "text" not in f:
-            f["text"] = text_of(case, f["base"], f["uris"], f["prim"], os.path.dirname(f["path"]))
+            f["text"] = text_of(case, f["base"], f["uris"], f["prim"], os.path.dirname(f["path"]), lang_of(case, f["path"]) if case.get("nlangs") else 0)
     for op in case["ops"]:
-        if op["entry"] != "file" and "text" not in op:
+        if op["entry"] not in ("file", "repo") and "text" not in op:
             dirname = os.path.dirname(op["path"]) if op["entry"] == "strfn" else None
-            base = os.path.basename(op["path"])[:-2] if op["entry"] == "strfn" else "z"
+            base = stem(op["path"]) if op["entry"] == "strfn" else "z"
             op["text"] = text_of(case, base, op["content"]["uris"], op["content"]["prim"], dirname)
 
 
@@ -472,7 +557,7 @@ def strip(case):
 
 
 def nontrivial(case, out):
-    return any(o["kind"] == "rejected" or (o["kind"] == "loaded" and (len(o["new"]) > 1 or any(d["params"] and d["params"]["items"] for d in o["new"])))
+    return any(o["kind"] == "rejected" or (o["kind"] in ("loaded", "repo") and (len(o["new"]) > 1 or any(d["params"] and d["params"]["items"] for d in o["new"])))
                for o in out["ops"])
 
 
@@ -495,6 +580,17 @@ def evaluate(chk, cases, tag):
             chk.count(json.dumps([c["prov"], c["grepo"], c["adds"], [f["text"] for f in c["files"]], c["patterns"],
                                   [[op["entry"], op.get("path"), op.get("text"), op["kwv"]] for op in c["ops"]]]), nontrivial=nontrivial(c, o))
             chk.stat("provider " + c["prov"] + ("+global" if c["grepo"] else ""))
+            chk.stat("registered languages: %d" % (c.get("nlangs") or 0))
+            if c.get("builtin"):
+                chk.stat("scenarios with a builtin model")
+            for oo in o["ops"]:
+                if oo["kind"] == "loaded":
+                    nf = len([d for d in oo["new"] if d.get("mm") not in (0, None)])
+                    if nf:
+                        chk.stat("loads creating models through a foreign metamodel")
+                        undecl = [k for k, _ in (oo["new"][0]["params"] or {"items": []})["items"]]
+                        if any(k != "project_root" and any(k not in (c["lang_adds"][d["mm"] - 1]) for d in oo["new"] if d.get("mm") not in (0, None)) for k in undecl):
+                            chk.stat("... with a parameter the foreign metamodel does not declare")
             for op, oo in zip(c["ops"], o["ops"]):
                 chk.stat("op %s -> %s" % (op["entry"], oo["kind"] if oo["kind"] != "err" else "err " + oo["exc"].split(":")[0]))
                 if oo["kind"] == "loaded":
@@ -533,7 +629,7 @@ def enum_cases():
 
 def run(chk):
     chk.prove([params_tr.translate])
-    n = 2200 if chk.thorough else 160
+    n = 2200 if chk.thorough else 260
     cases = corpus_cases()
     if chk.thorough:
         cases += enum_cases()
